@@ -213,11 +213,15 @@ func (s decodeStream) Generate(rng *rand.Rand, n int, thorough bool) []Case {
 				for i := 0; i < nch; i++ {
 					op := []int64{0, 1, 2, 3, 3, 4, -1, 255}[rng.Intn(8)]
 					var vals *N
-					switch rng.Intn(3) {
+					switch rng.Intn(5) {
 					case 0:
 						vals = Set(Oct(genStr(rng)))
 					case 1:
 						vals = P(0, []int{4, 17, 16}[rng.Intn(3)], lies[rng.Intn(len(lies))])
+					case 2:
+						vals = Set() // no value at all, under every operation number
+					case 3:
+						vals = Set(Oct("1"), Oct("-7"), Oct("x")) // several values, numeric and not
 					default:
 						vals = Set(P(0, 4, lies[rng.Intn(len(lies))]))
 					}
